@@ -324,6 +324,7 @@ func buildRealContext(cs *CtxSpec) *runner.ExecutionContext {
 // ---- reference model of one task execution (C06/C07/C11), pure ----
 
 type TaskExpect struct {
+	TimedOut     bool     // a command was killed by the task's timeout
 	Seq          []string // exec ids of the task's own commands (cond, before, cmd, after) in order
 	OptionalFrom int      // entries from this index on are optional (after a failing `after` hook); -1 = none
 	Skipped      bool
@@ -402,6 +403,13 @@ func ModelTaskFor(w *IntegWorld, t *TaskSpec, who string) *TaskExpect {
 			id := execID(t.Name, "cmd", i, v)
 			x.Seq = append(x.Seq, id)
 			p := w.PlanFor(id, who)
+			if t.TimeoutMS > 0 && p.DurMS < 0 {
+				// never finishes by itself: killed by the task's timeout - the task failed, also
+				// when it allows failure, and nothing of it runs afterwards
+				x.Failed = true
+				x.TimedOut = true
+				return x
+			}
 			x.Stdout = append(x.Stdout, stdoutOf(p)...)
 			if e := planExit(p); e != 0 && !t.Allow {
 				x.Failed = true
